@@ -767,34 +767,54 @@ def p6_world_len(prog):
         if not (top.path.startswith('world::World') or 'for world::World' in top.path) or top.name not in expect:
             r.viol('P6', '%s/unexpected-len-writer' % top.path, f.loc(writes[0][2]['ln']), 'World.len is written outside insert/extend/remove/clear/clone_from')
             continue
+        if top.name in seen or top is not f:
+            seen.add(top.name)
+            if top is not f:
+                r.viol('P6', '%s/unexpected-len-writer' % top.path, f.loc(writes[0][2]['ln']), 'World.len is written from inside a closure: the update cannot be paired with the structural change')
+            continue
         seen.add(top.name)
         kind, val, partners = expect[top.name]
-        pblocks = [cb for cb, ct in body.calls(lambda c: c['name'] in partners)]
-        for b, i, s in writes:
-            rv = s['rv']
-            ok = False
-            if kind in ('add', 'sub') and rv['k'] == 'binop' and rv['op'].startswith('Add' if kind == 'add' else 'Sub'):
-                ok = (receiver_name(prog, body, rv['a']) or '').endswith('self.len') and op_const(rv['b']) is not None and op_const(rv['b']).get('val') == val
-            elif kind == 'addvar' and rv['k'] == 'binop' and rv['op'].startswith('Add'):
-                l = op_local(rv['b'])
-                d = single_def(body, access_of_local(body, l).root) if l is not None else None
-                ok = (receiver_name(prog, body, rv['a']) or '').endswith('self.len') and bool(d and d[0] == 'call' and d[2]['f']['name'] in ('len', 'component_len'))
-            elif kind == 'set':
-                ok = rv['k'] == 'use' and op_const(rv['op']) is not None and op_const(rv['op']).get('val') == val
+        E = pathsem.analyse(prog, f)
+        if E.truncated or not E.paths:
+            r.viol('P6', '%s/not-analysable' % top.path, f.loc(), 'path enumeration cut off')
+            continue
+        rep = set()
+
+        def once(k, ln, msg, top=top, f=f, rep=rep):
+            if k not in rep:
+                rep.add(k)
+                r.viol('P6', '%s/%s' % (top.path, k), f.loc(ln), msg)
+        S = pathsem.strip_refs
+        for p in E.paths:
+            if p.ended != 'return':
+                continue
+            stores = [e for e in p.events if e['k'] == 'store' and pathsem.is_field_of(e['loc'], 'world::World', li) and pathsem.mentions(e['loc'], lambda t: t[0] == 'p' and t[1] == 1)]
+            part = p.calls(lambda e: e['name'] in partners and ('archetype' in e['path'] or 'Archetype' in e['path'] or e['f'].get('trait') == 'core::clone::Clone'))
+            if kind == 'copy':
+                part = [e for e in part if any(pathsem.mentions(v, lambda t: t[0] == 'p' and t[1] == 2) for v in list(e['args']) + list(e['vals']))]
+            if part and not stores:
+                once('structural-change-without-len', part[0]['ln'], 'a path changes the stored population without updating len')
+            if stores and not part:
+                once('len-on-other-path' if p.calls(lambda e: e['name'] in partners) or True else 'no-structural-partner', stores[0]['ln'], 'len is updated on a path that does not make the structural change (%s)' % (partners,))
+            if not stores:
+                continue
+            st = stores[-1]
+            old = st['loc']
+            okv = False
+            if kind == 'set':
+                okv = st['value'] == ('c', val)
             elif kind == 'copy':
-                ok = rv['k'] == 'use' and (receiver_name(prog, body, rv['op']) or '').endswith('source.len')
-            if not ok:
-                r.viol('P6', '%s/wrong-len-delta' % top.path, f.loc(s['ln']), 'World.len update in %s is not the expected %s %s' % (top.name, kind, val))
-            if not pblocks:
-                r.viol('P6', '%s/no-structural-partner' % top.path, f.loc(s['ln']), '%s updates len but does not call %s' % (top.name, partners))
+                okv = pathsem.is_field_of(st['value'], 'world::World', li) and pathsem.mentions(st['value'], lambda t: t[0] == 'p' and t[1] == 2)
             else:
-                # same paths: write reachable iff partner executed (either dominates the other)
-                if not any(body.dominates(pb, b) or body.dominates(b, pb) for pb in pblocks):
-                    r.viol('P6', '%s/len-on-other-path' % top.path, f.loc(s['ln']), 'len is updated on a different path than the structural change')
-        # partner without len update
-        for pb in pblocks:
-            if not any(body.dominates(pb, b) or body.dominates(b, pb) for b, _, _ in writes):
-                r.viol('P6', '%s/structural-change-without-len' % top.path, f.loc(), 'a path changes the stored population without updating len')
+                d = pathsem.lin(st['value']) - pathsem.lin(old)
+                if kind == 'add':
+                    okv = d.is_const() and d.const == val
+                elif kind == 'sub':
+                    okv = d.is_const() and d.const == -val
+                else:
+                    okv = d.const == 0 and len(d.terms) == 1 and list(d.terms.values()) == [1] and all(isinstance(t, tuple) and t[0] == 'call' and t[1].rsplit('::', 1)[-1] in ('len', 'component_len') for t in d.terms)
+            if not okv:
+                once('wrong-len-delta', st['ln'], 'World.len update in %s (%s) is not the expected %s %s' % (top.name, pathsem.tstr(st['value']), kind, val))
     for nm in expect:
         if nm not in seen:
             r.viol('P6', 'missing-len-writer/' + nm, '-', 'World::%s does not update len' % nm)
